@@ -5,3 +5,4 @@ C01 at token level (Props/C01.lean), numeric constants (Props/C01Lit.lean) and a
 import Verif.Props.C01
 import Verif.Props.C01Text
 import Verif.Props.C03Text
+import Verif.Props.ClauseExamples
